@@ -29,3 +29,14 @@ fn material_and_stage_are_colour_symmetric() {
     assert!((wn | wb).swap_bytes().count_ones() == (wn | wb).count_ones());
     assert!((wq.swap_bytes() != 0) == (wq != 0));
 }
+
+/// every piece-square table entry is small (|v| <= 1000): the i32 sums of the evaluation cannot overflow
+#[kani::proof]
+fn tables_bounded() {
+    let stage: usize = kani::any();
+    let piece: usize = kani::any();
+    let sq: usize = kani::any();
+    kani::assume(stage < 3 && piece < 6 && sq < 64);
+    assert!(WHITE_TABLES[stage][piece][sq] >= -1000 && WHITE_TABLES[stage][piece][sq] <= 1000);
+    assert!(BLACK_TABLES[stage][piece][sq] >= -1000 && BLACK_TABLES[stage][piece][sq] <= 1000);
+}
